@@ -4,7 +4,7 @@ from .progfam import *
 
 def run(tier, seed):
     return run_prog_property(
-        "C08", ["fold"], tier, seed, verdict_fams=("fold",),
+        "C08", ["fold"], tier, seed, trace_fams=("fold",), verdict_fams=("fold",),
         rule="MC_Fold.tla: for every bound N of the tier and five fold functions (acc'=3*acc+e mod 256; a pair accumulator "
              "remembering the last two elements; a function panicking on a poisoned element; element types (u1,u8) and "
              "Option<u2>) one program `fold::<f,N>(witness::L, init)` whose witness points are lists of every length "
